@@ -284,10 +284,7 @@ func (e *Engine) Verify(name string) (run *FuncRun, err error) {
 	_ = ret
 	pre := &SpecEnv{eng: e, pkg: env.pkg, pkgScope: env.pkgScope, cur: run.entry, old: run.entry, vars: env.vars}
 	locs := pre.evalModLocs(c.Modifies)
-	var ftags []string
-	for _, m := range c.Modifies {
-		ftags = append(ftags, m.Tags...)
-	}
+	ftags := append([]string{}, c.ModTags...)
 	// postconditions and frame are checked at every return site separately (smaller queries,
 	// and a failure names the return statement)
 	rets := append([]edgeState{}, fr.returns...)
